@@ -132,13 +132,15 @@ class FactoredInference:
         c0 = c
         l = sigma/L
         for k in range(1, self.iters+1):
-            a = 2*c*l / (np.sqrt((c*l)**2 + 4*c*l) + l*c)
-            y = (1 - a)*x + a*z
-            c *= (1-a)
+            s = np.sqrt((c*l)**2 + 4*c*l) + l*c
+            a = 2*c*l / s
+            b = 4*c*l / s**2 # = 1 - a, without cancellation
+            y = b*x + a*z
+            c *= b
             _, g = self._marginal_loss(y) 
             theta = theta - a/c/total * g
             z = model.belief_propagation(theta)
-            x = (1-a)*x + a*z
+            x = b*x + a*z
             if callback is not None:
                 callback(x)
 
